@@ -252,5 +252,6 @@ theorem runL_agree (l l' : M Unit) (s : Sys) (h : ∀ s1, l s1 = l' s1 ∨ ∃ s
         | ok u s3 =>
           rw [bind_ok hyc, bind_ok hyc, modS_bind', modS_bind']
           exact runLoopL_agree l l' _ (h _)
+    | selFail proxy => left; rfl
 
 end Lomond.Core.Monitor
